@@ -1,3 +1,4 @@
 pub mod engine;
 pub mod conv;
 pub mod alpha;
+pub mod roots;
